@@ -97,6 +97,10 @@ def check_model(ck, m, label, custom_table, stats):
             of = g.opaque.get(name)
             if of is None:
                 stats["no_opaque"].append(g.trait_path + "::" + name)
+                if label == "corpus":
+                    # no corpus method is #[vtbl_only]: a slot without a method in `impl Trait for CGlueO` means the opaque object
+                    # inherits the trait's default body (or cannot be called at all) instead of reaching the wrapped value
+                    ck.ob("R3-slot-has-opaque-impl", key, False, "trait %s: method `%s` has a vtable slot but `impl %s for <opaque>` does not define it" % (g.trait_path, name, g.trait_path))
                 continue
             oi = forward.analyze_opaque(g, name, of)
             if not ck.ob("R3-one-vtable-call", key, len(oi.icalls) == 1, "opaque impl %s performs %d indirect calls (expected exactly one)" % (of["path"], len(oi.icalls))):
@@ -184,8 +188,36 @@ def check_accessors(ck, f, unit, label):
 
 
 def check_forward_impls(ck, f, unit, label):
-    """R5: `impl Trait for Fwd<T>` (from #[cglue_forward]) calls the method of the same name on `self.0`, once, arguments in order."""
+    """R5: `impl Trait for Fwd<T>` (from #[cglue_forward]) calls the method of the same name on `self.0`, once, arguments in order;
+    and it defines every by-reference method of the trait, provided ones included (an inherited default body would bypass the
+    implementor's override)."""
     n = 0
+    traits = {t["path"]: t for t in f.traits(unit)}
+    for im in f.impls(unit):
+        if not (im.get("self_ty") or "").startswith("cglue::forward::Fwd<") or not im.get("exp") or im.get("trait") not in traits:
+            continue
+        if "cglue_forward" not in im.get("macro", "") and "cglue_builtin_ext_forward" not in im.get("macro", ""):
+            continue
+        have = {it["name"] for it in im["items"] if it["kind"] == "fn"}
+        # the exported methods are those the opaque impl (`impl Trait for CGlueO`, from #[cglue_trait]) defines: #[skip_func] and
+        # #[vtbl_only] methods are in neither impl by design
+        exported = None
+        for im2 in f.impls(unit):
+            if im2.get("trait") == im["trait"] and im2.get("exp") and "cglue_trait" in im2.get("macro", "") and not im2.get("self_adt"):
+                exported = {it["name"] for it in im2["items"] if it["kind"] == "fn"}
+        if exported is None:
+            continue
+        for it in traits[im["trait"]]["items"]:
+            if it["name"] not in exported:
+                continue
+            if it["kind"] != "fn" or not it.get("has_self") or not it["inputs"]:
+                continue
+            r0 = it["inputs"][0]
+            if not (r0.startswith("&") or r0.startswith("std::pin::Pin<&")):
+                continue
+            ck.ob("R5-forward-defines-every-ref-method", "%s/%s::%s" % (label, im["trait"], it["name"]), it["name"] in have,
+                  "impl %s for Fwd<T> does not define `%s`%s: a call through Fwd runs the trait's default body instead of the wrapped value's method"
+                  % (im["trait"], it["name"], " (a provided method)" if it.get("has_default") else ""))
     for fn in f.fns(unit):
         if not (fn.get("impl_self") or "").startswith("cglue::forward::Fwd<") or not fn.get("impl_trait") or not fn["exp"]:
             continue
